@@ -9,21 +9,27 @@ CONSTANTS
   \* @type: Set(Str);
   Models,
   \* @type: Bool;
-  Overwrite
+  Overwrite,
+  \* @type: Bool;
+  Rename
 VARIABLES
   \* @type: Str -> <<Str, Bool>>;
   dirs,
   \* @type: { op: Str, outcome: Str, name: Str, model: Str };
   last
 
-CInit == Names = {"a", "b", "c", "d"} /\ Models = {"m1", "m2", "m3"} /\ Overwrite = FALSE
-CInitNeg == Names = {"a", "b", "c", "d"} /\ Models = {"m1", "m2", "m3"} /\ Overwrite = TRUE
+CInit == Names = {"a", "b", "c", "d"} /\ Models = {"m1", "m2", "m3"} /\ Overwrite = FALSE /\ Rename \in BOOLEAN
+CInitNeg == Names = {"a", "b", "c", "d"} /\ Models = {"m1", "m2", "m3"} /\ Overwrite = TRUE /\ Rename \in BOOLEAN
 AInit == dirs = [n \in {} |-> <<"m1", FALSE>>] /\ last = [op |-> "none", outcome |-> "", name |-> "", model |-> ""]
 
 ASave(model, safe, name) ==
   IF name \in DOMAIN dirs /\ ~Overwrite
-  THEN /\ last' = [op |-> "save", outcome |-> "raise", name |-> name, model |-> model]
-       /\ UNCHANGED dirs
+  THEN \/ /\ last' = [op |-> "save", outcome |-> "raise", name |-> name, model |-> model]
+          /\ UNCHANGED dirs
+       \/ /\ Rename
+          /\ \E n2 \in Names \ DOMAIN dirs :
+                /\ dirs' = [n \in DOMAIN dirs \cup {n2} |-> IF n = n2 THEN <<model, safe>> ELSE dirs[n]]
+                /\ last' = [op |-> "save", outcome |-> "ok", name |-> n2, model |-> model]
   ELSE /\ dirs' = [n \in DOMAIN dirs \cup {name} |-> IF n = name THEN <<model, safe>> ELSE dirs[n]]
        /\ last' = [op |-> "save", outcome |-> "ok", name |-> name, model |-> model]
 ALoad(name, safe) ==
